@@ -38,9 +38,21 @@ type Client struct {
 	// this client fails at once (Resp.Skipped) instead of waiting for the watchdog again.
 	FailFast bool
 
+	// Wire: how the bodies of the requests sent while it is set travel (requests without a body are not affected).
+	Wire Wire
+
+	// PlusEscaped: a '+' in the path of a request (url.PathEscape leaves it as it is) is sent as %2B instead.
+	PlusEscaped bool
+
 	unanswered      atomic.Int64
 	firstUnanswered atomic.Value // string
 }
+
+// Wire describes the transport of a request body. Gzip: the body is compressed and the request says
+// "Content-Encoding: gzip" (a body that a caller compressed itself, as UploadMedia with gz does, is not compressed
+// again). Streamed: the body is handed to net/http as a plain io.Reader, so the request carries no Content-Length and
+// goes out with "Transfer-Encoding: chunked" - what a client does that compresses or produces its data on the fly.
+type Wire struct{ Gzip, Streamed bool }
 
 // Watchdog is the general bound on one request (headers and body of the response included). A request that gets no
 // answer within its watchdog is reported by the callers as "not answered": Resp.Unanswered holds the bound.
@@ -121,14 +133,43 @@ func (c *Client) do(watchdog time.Duration, method, target string, hdr [][2]stri
 		return &Resp{Skipped: true, Err: "not sent: an earlier request to this server got no answer (" + c.FirstUnanswered() + ")"}
 	}
 	var rd io.Reader
+	streamed := false
 	if body != nil {
+		if c.Wire.Gzip {
+			already := false
+			for _, h := range hdr {
+				if strings.EqualFold(h[0], "Content-Encoding") {
+					already = true
+				}
+			}
+			if !already {
+				body = Gzip(body)
+				hdr = append(append([][2]string(nil), hdr...), [2]string{"Content-Encoding", "gzip"})
+				c.count("request_bodies_gzip_compressed_by_the_transport")
+			}
+		}
 		rd = bytes.NewReader(body)
+		if c.Wire.Streamed && len(body) > 0 {
+			rd = struct{ io.Reader }{rd} // not a type net/http knows the length of
+			streamed = true
+			c.count("request_bodies_streamed_without_content_length")
+		}
+	}
+	if c.PlusEscaped {
+		path, query, hasQuery := strings.Cut(target, "?")
+		target = strings.ReplaceAll(path, "+", "%2B")
+		if hasQuery {
+			target += "?" + query
+		}
 	}
 	ctx, cancel := context.WithTimeout(context.Background(), watchdog)
 	defer cancel()
 	req, err := http.NewRequestWithContext(ctx, method, c.Base+target, rd)
 	if err != nil {
 		return &Resp{Err: "bad request: " + err.Error()}
+	}
+	if streamed {
+		req.ContentLength = -1
 	}
 	for _, h := range hdr {
 		req.Header.Set(h[0], h[1])
